@@ -29,3 +29,28 @@ PROPS['C18'] = dict(
     tolerances='none (exact comparisons of keys)',
     assumptions=['std::sort and IEEE comparisons in the specification oracle'],
 )
+
+PROPS['C19'] = dict(
+    level='exploration',
+    technique='state-space enumeration (all 2^31-2 generator states in the thorough tier) + rapidcheck model-based histories against 64-bit modular arithmetic',
+    level_text='Thorough: every generator state 1..2^31-2 is pushed through next_long_rand and the float/double scalar map and compared with '
+               '(16807*s) mod (2^31-1) computed in 64-bit arithmetic (exhaustive); quick: every 127th state plus both ends. Every seed the library '
+               'itself forms (0 and 2i+123j, i<2^20, j<5) is checked for a non-degenerate state. A rapidcheck state-machine layer draws scalar type, '
+               'seeds, and interleavings of single / vector draws over several generator objects and threads, and compares each object with its own '
+               'reference model (purity, range [-0.5,0.5], real-then-imaginary order for complex).',
+    level_note='Trusts 64-bit unsigned integer arithmetic of the compiler for the reference model. Seeds whose low 31 bits are all ones or all zeros '
+               '(degenerate state) are outside the library\'s seed forms and are counted as rejected.',
+    units=[dict(name='c19', src='c19_rand.cpp', libs=['-lrapidcheck', '-lpthread'])],
+    runs=dict(
+        quick=[dict(unit='c19', cases=6000, set=dict(stride=127))],
+        thorough=[dict(unit='c19', cases=20000, workers='all', set=dict(stride=1, exh_part='{w}', exh_parts='{nw}'))],
+    ),
+    exhaustive_units=['c19'], exhaustive_tiers=['thorough'],
+    min=dict(quick=dict(cases=10000000, nontrivial=1000000), thorough=dict(cases=2000000000, nontrivial=100000000)),
+    rule='enumeration layer: generator states s in [1, 2^31-2] (all of them in thorough, every 127th + 64 at each end in quick), each compared with '
+         '16807*s mod (2^31-1) and with the float/double scalar map; non-trivial = the 16-bit split multiplication carries past 2^31-1 (either '
+         'reduction branch taken), distinct by construction. rapidcheck layer: histories over 1-4 generator objects x 6 scalar types x seed forms x '
+         'interleaved random()/random_vec() calls, and 2-8 concurrent threads; non-trivial = at least two draws; distinct = 64-bit hash of the draw log.',
+    tolerances='none (bitwise equality with the reference model)',
+    assumptions=['64-bit unsigned arithmetic in the reference model'],
+)
